@@ -57,6 +57,9 @@ pub fn cases(thorough: bool) -> Vec<ECase> {
     add("maxstreams-shrink@14".into(), &|c| c.server.max_uni = Some(4), plan(many), plan(vec![]), vec![(14, Op::SetMaxStreams(SERVER, Dir::Uni, 1))], (10, 34));
     // reset mid-stream under a tight connection window
     add("reset-midstream".into(), &|c| c.server.recv_window = Some(3000), plan(vec![StreamPlan { dir: Dir::Uni, len: 5000, chunk: 800, end: End::Reset { after: 1600, code: 5 } }, sp(Dir::Uni, 4000, 1000)]), plan(vec![]), vec![], (8, 32));
+    // send window shared by three streams, one of which is reset while acknowledged ranges may sit behind a gap
+    add("sendwin6000-reset".into(), &|c| c.client.send_window = Some(6000), plan(vec![StreamPlan { dir: Dir::Uni, len: 12000, chunk: 1000, end: End::Reset { after: 7000, code: 6 } }, sp(Dir::Uni, 8000, 1000), sp(Dir::Uni, 8000, 1000)]), plan(vec![]), vec![], (6, 30));
+    add("sendwin2500-reset-late".into(), &|c| c.client.send_window = Some(2500), plan(vec![StreamPlan { dir: Dir::Uni, len: 9000, chunk: 700, end: End::Reset { after: 4200, code: 6 } }, sp(Dir::Bi, 6000, 500)]), plan(vec![]), vec![], (8, 32));
     let _ = Side::Client;
     v
 }
@@ -67,9 +70,31 @@ fn params(p: &StdPair) -> (Vec<u8>, Vec<u8>) {
     (c, s)
 }
 
+/// Largest send window the client had at any time of this case
+fn max_send_window(c: &ECase) -> u64 {
+    let mut w = c.cfg.client.send_window.unwrap_or(u64::MAX);
+    for (_, op) in &c.script {
+        if let Op::SetSendWindow(n, v) = op {
+            if *n == CLIENT {
+                w = w.max(*v);
+            }
+        }
+    }
+    w
+}
+
 fn oracle(p: &StdPair, _done: bool) -> (Vec<(String, String)>, u64) {
     let (cp, sp) = params(p);
     let (mut v, near) = flow_violations(p, &cp, &sp);
+    // the case name travels in the client's configuration name
+    static WINDOWS: std::sync::OnceLock<std::collections::BTreeMap<String, u64>> = std::sync::OnceLock::new();
+    let windows = WINDOWS.get_or_init(|| cases(true).iter().map(|c| (c.name.clone(), max_send_window(c))).collect());
+    if let Some(&w) = windows.get(&p.cfg_name) {
+        if w != u64::MAX {
+            let (sv, _) = crate::ledger::send_window_violations(p, CLIENT, w);
+            v.extend(sv);
+        }
+    }
     for (s, w) in integrity(p) {
         if s == "app-oracle" {
             v.push((format!("api:{}", if w.contains("audit") { "audit" } else { "integrity" }), w));
